@@ -155,7 +155,7 @@ impl<'a> Gen<'a> {
     fn exprs(&mut self, max: usize) -> String {
         let n = 1 + self.rng.below(max);
         let mut v = vec![];
-        for _ in 0..n { v.push(self.expr(2)); }
+        for _ in 0..n { let d = if self.rng.chance(1, 4) { 3 } else { 2 }; v.push(self.expr(d)); }
         let mut out = String::new();
         for (i, e) in v.iter().enumerate() { if i > 0 { let c = self.comma(); out.push_str(&c); } out.push_str(e); }
         out
@@ -172,10 +172,10 @@ impl<'a> Gen<'a> {
             0 | 1 => { let names = if self.rng.chance(1, 4) { format!("{}, {}", self.name(), self.name()) } else { self.name() };
                        let attr = if self.k.syn == "Lua54" && self.rng.chance(1, 6) { " <const>" } else { "" };
                        if self.rng.chance(1, 6) { format!("local {}{}", names, attr) } else { let a = self.sp(); let b = self.sp(); let e = self.exprs(2); format!("local {}{}{}={}{}", names, attr, a, b, e) } }
-            2 => { let t = self.prefix_chain(false); let t = if t.ends_with(')') || t.ends_with('"') || t.ends_with('\'') || t.ends_with('}') || t.ends_with("]]") || t.starts_with('(') { self.name() } else { t };
+            2 => { let t = self.prefix_chain(false); let t = if t.ends_with(')') || t.ends_with('"') || t.ends_with('\'') || t.ends_with('}') || t.ends_with("]]") || (t.starts_with('(') && self.rng.chance(1, 2)) { self.name() } else { t };
                    let a = self.sp(); let b = self.sp(); let e = self.exprs(2);
                    if self.luau() && self.rng.chance(1, 6) { format!("{}{}+={}{}", t, a, b, self.expr(1)) } else { format!("{}{}={}{}", t, a, b, e) } }
-            3 | 4 => { let c = self.prefix_chain(true); if c.starts_with('(') { format!("{}()", self.name()) } else { c } }
+            3 | 4 => { let c = self.prefix_chain(true); if c.starts_with('(') && self.rng.chance(1, 2) { format!("{}()", self.name()) } else { c } }
             5 => format!("local function {}(a){}{}{}end", self.name(), nl, { self.depth += 1; let b = self.block(2); self.depth -= 1; b }, ind),
             6 => { let b = body(self, 3); format!("do{}{}{}end", nl, b, ind) }
             7 => { let c = self.expr(2); let b = body(self, 3); format!("while {} do{}{}{}end", c, nl, b, ind) }
